@@ -26,7 +26,7 @@ pub fn scenarios_for(prop: &str) -> Vec<&'static str> {
         "C04" => vec!["sync_rendezvous", "small_payload_paths", "drain_blocked_senders", "zst_and_padding", "async_send_sync_recv", "async_recv_busy_poll", "async_send_busy_poll", "drain_async_pending_senders", "iter_until_disconnect", "timed_handoff_races", "unbounded_burst", "zst_with_drop"],
         // destroyed exactly once: heap-owning payloads make a leak or a second destruction an interpreter error
         "C05" => vec!["sync_rendezvous", "sync_mpsc_cap1", "small_payload_paths", "timeouts", "timed_handoff_races", "close_with_buffered_and_blocked", "zst_with_drop", "cancel_recv_future", "cancel_send_future", "last_receiver_drop_releases_senders", "realtime_contention"],
-        "C13" => vec!["timeouts", "timed_handoff_races", "small_payload_paths", "close_with_buffered_and_blocked"],
+        "C13" => vec!["timeouts", "timed_handoff_races", "small_payload_paths", "close_with_buffered_and_blocked", "timeout_vs_last_receiver_drop"],
         "C15" => vec!["cancel_recv_future", "cancel_send_future", "stream_dropped_midway", "stream_spurious"],
         _ => vec![
             "sync_rendezvous",
@@ -55,6 +55,7 @@ pub fn scenarios_for(prop: &str) -> Vec<&'static str> {
             "async_mpmc_cap1",
             "unbounded_burst",
             "last_receiver_drop_releases_senders",
+            "timeout_vs_last_receiver_drop",
         ],
     }
 }
